@@ -37,11 +37,18 @@ def explore(args):
         n = spec[1]
         bs = [z3.BitVec(f"b{i}", 8) for i in range(n)]
         ex.add_base(*utf8_constraints(bs))
+    elif spec[0] == "reuse":
+        # the same Vm value parses an earlier text first (n1 symbolic bytes), then the text under test (n2 symbolic bytes)
+        n1, n = spec[1], spec[2]
+        first = [z3.BitVec(f"a{i}", 8) for i in range(n1)]
+        bs = [z3.BitVec(f"b{i}", 8) for i in range(n)]
+        ex.add_base(*utf8_constraints(first)); ex.add_base(*utf8_constraints(bs))
     else:
         tb, holes = spec[1], spec[2]
         bs = [z3.BitVec(f"b{i}", 8) if i in holes else tb[i] for i in range(len(tb))]
         for i in holes: ex.add_base(z3.ULT(bs[i], 0x80))
         n = len(tb)
+    if spec[0] != "reuse": first = None
     rows = []; fns = set()
 
     def side(I, which, inp):
@@ -51,7 +58,12 @@ def explore(args):
             elif which == "generated":
                 r = I.call("", "<G0 as Parser>::parse", [I.make_adt(f"g0::Rule::{start}", []), inp])
             else:
-                vm = pegsym.build_vm(P, vm_rules)
+                vm = pegsym.build_vm(P, vm_rules, I)
+                if first is not None:
+                    try:
+                        I.call("", "Vm::parse", [Ptr(Cell(vm)), str_const(start.encode()), SliceRef(VecObj(list(first), "input"), 0, len(first), True)])
+                    except (Panic, StepLimit):
+                        pass
                 r = I.call("", "Vm::parse", [Ptr(Cell(vm)), str_const(start.encode()), inp])
         except Panic as e: return {"res": "PANIC", "msg": str(e)}
         except StepLimit as e: return {"res": "NONTERM", "msg": str(e)}
@@ -78,6 +90,7 @@ def explore(args):
             rows.append({"inp": None, "event": f"{type(res).__name__}: {res}"}); continue
         m = W.get_model()
         res["inp"] = bytes((m.eval(b, model_completion=True).as_long() if is_sym(b) else b) for b in bs).hex() or "-"
+        if first is not None: res["first"] = bytes(m.eval(b, model_completion=True).as_long() for b in first).hex() or "-"
         rows.append(res)
     return {"start": start, "spec": str(spec)[:70], "rows": rows, "paths": len(rows), "queries": ex.nqueries, "solver_s": ex.solver_time, "fns": fn_evidence(fns)}
 
@@ -109,6 +122,11 @@ def run(ctx):
     starts = START_RULES if not ctx.quick else START_RULES[:8]
     for s in starts:
         for n in range(N + 1): jobs.append((P, st["optimized"], s, ("free", n)))
+    # one Vm value used for two texts in a row (a Vm is built once and reused by its users): the second result is compared
+    RN = (1, 2) if ctx.quick else (2, 2)
+    for s in starts[:1] if ctx.quick else starts[:4]:
+        for n1 in range(RN[0] + 1):
+            for n2 in range(RN[1] + 1): jobs.append((P, st["optimized"], s, ("reuse", n1, n2)))
     tmpl = templates() if not ctx.quick else templates()[::2]
     for t in tmpl: jobs.append((P, st["optimized"], "grammar_rules", t))
     t0 = time.time()
@@ -123,7 +141,7 @@ def run(ctx):
     for ri, r in enumerate(results):
         for wi, row in enumerate(r["rows"]):
             if row.get("inp") is None: continue
-            r1.append(f"{r['start']} {row['inp']}"); r2.append(f"0 {r['start']} {row['inp']}"); r3.append(f"0 0 {row['inp']} {r['start']} {ghex}"); idx.append((ri, wi))
+            r1.append(f"{r['start']} {row['inp']}"); r2.append(f"0 {r['start']} {row['inp']}"); r3.append(f"0 0 {(row['first'] + '+') if 'first' in row else ''}{row['inp']} {r['start']} {ghex}"); idx.append((ri, wi))
     n1 = native.run_lines("meta", r1, timeout=3000) if r1 else []
     n2 = gensym.run_native(binary, r2) if r2 else []
     n3 = c01.native_vm(r3) if r3 else []
@@ -136,9 +154,10 @@ def run(ctx):
             enc.append({"start": r["start"], "input": row["inp"], "pred": {k: row[k] for k in nat}, "native": [a[:200], b[:200], c[:200]]}); continue
         validated += 3
         if not (agree(row["checked_in"], row["generated"]) and agree(row["generated"], row["vm"])):
-            what = f"start {r['start']}, text {bytes.fromhex(row['inp']) if row['inp'] != '-' else b''!r}: checked-in grammar.rs -> {a[:150]} | freshly generated -> {b[:150]} | VM -> {c[:150]}"
+            pre = f"Vm reused after parsing {bytes.fromhex(row['first']) if row['first'] != '-' else b''!r}; " if "first" in row else ""
+            what = f"start {r['start']}, {pre}text {bytes.fromhex(row['inp']) if row['inp'] != '-' else b''!r}: checked-in grammar.rs -> {a[:150]} | freshly generated -> {b[:150]} | VM -> {c[:150]}"
             if len(ctx.violations) < 10:
-                pth = save_replay(ctx, f"meta-{abs(hash(r['start'] + row['inp'])) % 10**8}.json", {"start": r["start"], "input": row["inp"]})
+                pth = save_replay(ctx, f"meta-{abs(hash(r['start'] + row['inp'])) % 10**8}.json", {"start": r["start"], "input": row["inp"], "first": row.get("first")})
                 ctx.violations.append((what, pth, row["inp"]))
     for r in results:
         for row in r["rows"]:
@@ -147,7 +166,7 @@ def run(ctx):
     samples = [{"start": r["start"], "text_hex": r["rows"][-1]["inp"], "checked_in": r["rows"][-1].get("checked_in")} for r in results[::max(1, len(results) // 6)][:6] if r["rows"] and r["rows"][-1].get("inp")]
     cov = {"programs": 3, "disagreements_checked": paths, "samples": samples or [{"note": "none"}], "traces_validated_against_impl": validated, "exhaustive": False,
            "functions_encoded": sorted(set(f for r in results for f in r["fns"]))[:400],
-           "bounds": f"start rules {starts} x every valid UTF-8 text of 0..{N} bytes (symbolic) + {len(tmpl)} grammar templates with symbolic ASCII holes fed to grammar_rules",
+           "bounds": f"start rules {starts} x every valid UTF-8 text of 0..{N} bytes (symbolic) + {len(tmpl)} grammar templates with symbolic ASCII holes fed to grammar_rules + one Vm value reused for two texts in a row (first 0..{RN[0]}, second 0..{RN[1]} symbolic bytes; the second result is compared)",
            "paths": paths, "queries_discharged": sum(r["queries"] for r in results), "solver_time_s": round(sum(r["solver_s"] for r in results), 2), "encoder_mismatches": len(enc), "events": events[:10],
            "explanation": "programs = the three parsers of the meta-grammar; disagreements_checked = joint paths on which their results were compared"}
     write_evidence(ctx, "translation_validation", cov,
@@ -167,7 +186,7 @@ def replay(ctx, path):
     b = gensym.build_native(dd, tag="c14")
     a1 = native.run_lines("meta", [f"{d['start']} {d['input']}"])[0]
     a2 = gensym.run_native(b, [f"0 {d['start']} {d['input']}"])[0]
-    a3 = c01.native_vm([f"0 0 {d['input']} {d['start']} {text.encode().hex()}"])[0]
+    a3 = c01.native_vm([f"0 0 {(d['first'] + '+') if d.get('first') else ''}{d['input']} {d['start']} {text.encode().hex()}"])[0]
     print(a1); print(a2); print(a3)
     v = [c01.parse_vm_reply(x) for x in (a1, a2, a3)]
     if not (agree(v[0], v[1]) and agree(v[1], v[2])):
